@@ -1,11 +1,11 @@
 CONSTANTS
-  IdPolicy = "count"
-  MaxDepth = 1
+  IdPolicy = "max"
+  MaxDepth = 2
   MaxArts = 4
-  MaxSteps = 5
+  MaxSteps = 9
   NTexts = 1
   GenDepth = 99
-  Ops = {"mkcat","post","delart"}
+  Ops = {"mkcat","post","delart","delitem","reload"}
   Thin = TRUE
 INIT Init
 NEXT Next
